@@ -36,6 +36,15 @@ func checkC15(c *Ctx) {
 	c.mergeRefusal()
 	c.graftIndexAfterEdit()
 	c.checkPair("PAIR", map[string]bool{"InsertIdenticalTip": true, "GraftTreeOnTip": true, "removeSingleNodesRecur": true, "Merge": true, "copyTreeRecur": true})
+	c.Decides("MAKE-APPEND: no slice of package tree (the comment slices of CopyNode/CopyEdge included) is created with make(.., n) and then filled with append, directly or through an appending method such as AddComment: the copy would carry n empty elements in front of the real ones")
+	nm, _ := c.makeAppend("MAKE-APPEND", c.AllFuncs("tree"), "a clone is an exact copy")
+	c.Extra["make_with_length_sites"] = nm
+	if fx := c.Fixture(); fx != nil {
+		sub := c.subCtx(fx)
+		_, nv := sub.makeAppend("MAKE-APPEND", sub.AllFuncs(), "")
+		c.Control("MAKE-APPEND", nv == 1, "fixture.C15MakeAppend fills a slice made with a length through an appending method")
+	}
+	c.Floor("MAKE-APPEND", 10)
 	c.Floor("FIELDS", 12)
 	c.Floor("ALIAS", 2)
 	c.Floor("SKELETON", 8)
